@@ -1,18 +1,21 @@
 from .. import common
 
 MANIFEST = {
-    "text": "PARTIAL. Statement: for every byte string in the decidable domain GoLexemesOnly (Model/ScanDomain.lean: no ILLEGAL token, no number+letter, "
-            "no c\"/py\", no -> => <>, and not one of the three by-design deviations) the models of the XGo scanner and of go/scanner 1.23 return the same "
-            "tokens (offset, kind, literal, inserted semicolons) and the same error-handler calls. Proved in Lean over the regenerated tables: "
-            "C16_token_tables_embed, C16_keywords_equal, C16_codes_equal (same numeric kinds), C16_switch_agrees + C16_switch_differences + C16_switch_xgo_only "
-            "(the operator switches coincide except for exactly -> <> => the '!' insertSemi, the parenthesis counter, ? $), "
-            "C16_bang_newline_differs / C16_ellipsis_newline_differs / C16_semicolon_order_differs (the by-design deviations are real and outside the domain; "
-            "known findings), C16_domain_examples. The general agreement theorem is NOT proved; it is checked per run by the differential harness: both models are "
-            "validated against the real go/scanner and the real XGo scanner (tokens, errors), the model's domain decision and agreement verdict are "
-            "compared with those computed on the real scanners, and any in-domain input on which the real scanners differ is a violation.",
+    "text": "FULL on a decidable domain. Lean 4 theorem C16_xgo_eq_go (and C16_agree): for EVERY byte string, every classification of non-ASCII "
+            "letters/digits and every scanning mode, if the source is in GoLexemesOnly (Model/ScanDomain.lean, evaluated on the go model's own run: no ILLEGAL "
+            "token, no number directly followed by a letter, no c\"/C\"/py\", no - = < directly followed by >, and none of the by-design deviations: '!' or '...' "
+            "before a line end/comment, a comment beginning while a semicolon is pending) then the model of the XGo scanner and the model of go/scanner 1.23 "
+            "return the same ScanOut: same tokens (offset, end, numeric kind, literal, inserted semicolons), same error-handler calls (offset, message) in the "
+            "same order, same status. Proof: relational invariant R16 + lockstep of the two token loops (Lemmas/ScanCongr, ScanC16a-e) on top of C15's "
+            "invariants. Also proved over the regenerated tables: C16_token_tables_embed, C16_keywords_equal, C16_codes_equal (equal numbers = same tokens), "
+            "C16_switch_agrees / C16_switch_differences / C16_switch_xgo_only, and witnesses that every exclusion is a real difference "
+            "(C16_bang_newline_differs, C16_ellipsis_newline_differs, C16_semicolon_order_differs, C16_lookahead_error_twice; known findings). "
+            "Both models are tied to the real go/scanner and the real XGo scanner by the differential run, which also compares the model's domain decision and "
+            "agreement verdict with those computed on the real scanners; an in-domain input on which the real scanners differ is a violation.",
     "note": "go/scanner is the one of the installed toolchain (go1.23.5); its model (dialect go, incl. the nlPos semicolon rule of Go >= 1.20) is "
-            "validated only differentially; error lists are compared in call order (stronger than the statement's 'same offsets').",
-    "technique": "Lean 4 proof over regenerated tables (kernel evaluation) + witnesses + differential correspondence of two models with two real scanners + domain oracle",
+            "validated only differentially; error lists are compared in call order (stronger than the statement's 'same offsets'); the domain excludes every "
+            "comment that directly follows an operand on the same line (needed: there the XGo scanner's look-ahead reports read errors twice).",
+    "technique": "Lean 4 proof (simulation between two dialects of one executable model, congruence lemmas, lockstep induction) + regenerated tables + differential correspondence of two models with two real scanners + domain oracle",
 }
 
 RULE = ("per source, comments on and off: Go-lexeme sequences (keywords, identifiers incl. non-ASCII, all numeric spellings, strings/runes/raw strings with "
